@@ -190,11 +190,52 @@ Proof.
   - right. now apply IH.
 Qed.
 
+(* the first steps of the paths of ONE row: what Migrate13_3 can reach in an action / a router of that type *)
+Definition row_heads (tab : list (string * list string)) (t : str) : list str :=
+  flat_map (fun p => match steps_of p with Some (sel :: _) => [sel] | _ => [] end) (catalog_paths tab t).
+
+Lemma row_heads_sub : forall tab t k, In k (row_heads tab t) -> In k (heads tab).
+Proof.
+  intros tab t k H. unfold row_heads in H. apply in_flat_map in H. destruct H as [p [Hp Hk]].
+  destruct (steps_of p) as [[|sel rem]|] eqn:E; try contradiction. destruct Hk as [<-|[]].
+  eapply catalog_paths_head; eassumption.
+Qed.
+
+(* finite obligation over the generated catalogue: no path starts at `type` *)
+Definition heads_avoid_type : bool := negb (mem_str k_type action_heads) && negb (mem_str k_type router_heads).
+Lemma heads_avoid_type_true : heads_avoid_type = true.
+Proof. vm_compute. reflexivity. Qed.
+
+(* the members of an action that the migrations other than 13.3 are written for, BY ACTION TYPE: 13.1, 13.4 and 13.5 touch
+   the templating / template / template_variables of a send_msg, 13.6 the name and category of a set_run_result; nothing
+   else of any action *)
+Definition action_fp (t : str) : list str :=
+  (if str_eqb t (s "send_msg") then [k_templating; k_template; k_template_variables] else [])
+  ++ (if str_eqb t (s "set_run_result") then [k_name; k_category] else []).
+
+Definition action_footprint : list str := [k_templating; k_template; k_template_variables; k_name; k_category].
+Definition router_footprint : list str := [k_result_name; k_categories].
+
+Lemma action_fp_sub : forall t k, In k (action_fp t) -> In k action_footprint.
+Proof.
+  intros t k H. unfold action_fp in H. apply in_app_or in H. unfold action_footprint.
+  destruct (str_eqb t (s "send_msg")), (str_eqb t (s "set_run_result")); cbn in *; tauto.
+Qed.
+
+Lemma type_not_in_action_fp : forall t, ~ In k_type (action_fp t).
+Proof. intros t H. apply action_fp_sub in H. revert H. apply not_in_keys. reflexivity. Qed.
+
+Lemma type_not_in_row_heads : forall t, ~ In k_type (row_heads catalog_actions t) /\ ~ In k_type (row_heads catalog_routers t).
+Proof.
+  intro t. pose proof heads_avoid_type_true as H. unfold heads_avoid_type in H. apply andb_true_iff in H. destruct H as [H1 H2].
+  apply negb_true_iff in H1, H2. split; intro Hin; apply row_heads_sub in Hin.
+  - revert Hin. now apply not_in_keys.
+  - revert Hin. now apply not_in_keys.
+Qed.
+
 Section Frame.
   Variable tx : str -> str.
 
-  Definition action_footprint : list str := [k_templating; k_template; k_template_variables; k_name; k_category].
-  Definition router_footprint : list str := [k_result_name; k_categories].
   Definition flow_footprint : list str := [k_nodes; k_localization; k_language; k_spec_version].
 
   (* outside the footprint a member keeps its shape and its texts, up to tx; if no catalogue path starts at it, it
@@ -214,10 +255,16 @@ Section Frame.
     | _, _ => False
     end.
 
+  (* an action against its migrated self: footprint and reachable members are those of ITS type *)
+  Definition action_frame (a a' : obj) : Prop :=
+    obj_frame (action_fp (type_of a)) (row_heads catalog_actions (type_of a)) a a'.
+  Definition router_frame (r r' : obj) : Prop :=
+    obj_frame router_footprint (row_heads catalog_routers (type_of r)) r r'.
+
   Definition node_frame (n n' : obj) : Prop :=
     (forall k, k <> k_actions -> k <> k_router -> olookup k n' = olookup k n)
-    /\ member_frame k_actions (arr_frame (lifted (obj_frame action_footprint action_heads))) n n'
-    /\ member_frame k_router (lifted (obj_frame router_footprint router_heads)) n n'.
+    /\ member_frame k_actions (arr_frame (lifted action_frame)) n n'
+    /\ member_frame k_router (lifted router_frame) n n'.
 
   Definition flow_frame (f f' : obj) : Prop :=
     (forall k, ~ In k flow_footprint -> olookup k f' = olookup k f)
@@ -234,6 +281,39 @@ Section Frame.
     intros fp hd a b c [H1 H1'] [H2 H2']. split.
     - intros k Hk. eapply orel_trans; [apply H1 | apply H2]; exact Hk.
     - intros k Hk Hh. now rewrite H2', H1'.
+  Qed.
+
+  Lemma obj_frame_mono : forall fp hd fp' hd' a a',
+    (forall k, In k fp -> In k fp') -> (forall k, In k hd -> In k hd') ->
+    obj_frame fp hd a a' -> obj_frame fp' hd' a a'.
+  Proof.
+    intros fp hd fp' hd' a a' Hf Hh [H1 H2]. split.
+    - intros k Hk. apply H1. intro Hin. apply Hk, Hf, Hin.
+    - intros k Hk Hk'. apply H2; intro Hin; [apply Hk, Hf, Hin | apply Hk', Hh, Hin].
+  Qed.
+
+  Lemma action_frame_type : forall a a', action_frame a a' -> type_of a' = type_of a.
+  Proof.
+    intros a a' [_ H]. unfold type_of, get_str. rewrite (H k_type); [reflexivity | apply type_not_in_action_fp |].
+    apply (proj1 (type_not_in_row_heads (type_of a))).
+  Qed.
+  Lemma router_frame_type : forall r r', router_frame r r' -> type_of r' = type_of r.
+  Proof.
+    intros r r' [_ H]. unfold type_of, get_str. rewrite (H k_type); [reflexivity | apply not_in_keys; reflexivity |].
+    apply (proj2 (type_not_in_row_heads (type_of r))).
+  Qed.
+
+  Lemma action_frame_refl : refl_rel action_frame.
+  Proof. intro a. apply obj_frame_refl. Qed.
+  Lemma action_frame_trans : trans_rel action_frame.
+  Proof.
+    intros a b c H1 H2. unfold action_frame in *. rewrite (action_frame_type a b H1) in H2. eapply obj_frame_trans; eassumption.
+  Qed.
+  Lemma router_frame_refl : refl_rel router_frame.
+  Proof. intro r. apply obj_frame_refl. Qed.
+  Lemma router_frame_trans : trans_rel router_frame.
+  Proof.
+    intros a b c H1 H2. unfold router_frame in *. rewrite (router_frame_type a b H1) in H2. eapply obj_frame_trans; eassumption.
   Qed.
 
   Lemma lifted_refl : forall R, refl_rel R -> refl_rel (lifted R).
@@ -270,15 +350,15 @@ Section Frame.
   Lemma node_frame_refl : refl_rel node_frame.
   Proof.
     intro n. split; [reflexivity|]. split.
-    - apply member_frame_refl, arr_frame_refl, lifted_refl, obj_frame_refl.
-    - apply member_frame_refl, lifted_refl, obj_frame_refl.
+    - apply member_frame_refl, arr_frame_refl, lifted_refl, action_frame_refl.
+    - apply member_frame_refl, lifted_refl, router_frame_refl.
   Qed.
   Lemma node_frame_trans : trans_rel node_frame.
   Proof.
     intros a b c [H1 [H2 H3]] [H4 [H5 H6]]. split; [|split].
     - intros k Ha Hr. now rewrite H4, H1.
-    - eapply member_frame_trans; [apply arr_frame_trans, lifted_trans, obj_frame_trans | exact H2 | exact H5].
-    - eapply member_frame_trans; [apply lifted_trans, obj_frame_trans | exact H3 | exact H6].
+    - eapply member_frame_trans; [apply arr_frame_trans, lifted_trans, action_frame_trans | exact H2 | exact H5].
+    - eapply member_frame_trans; [apply lifted_trans, router_frame_trans | exact H3 | exact H6].
   Qed.
 
   Lemma flow_frame_refl : refl_rel flow_frame.
@@ -338,19 +418,19 @@ Section Frame.
 
   (* node steps *)
   Lemma actions_only_node_frame : forall (step : mstate -> obj -> mstate * obj),
-    (forall st a, obj_frame action_footprint action_heads a (snd (step st a))) ->
+    (forall st a, action_frame a (snd (step st a))) ->
     forall st n, node_frame n (snd (on_array_member k_actions step st n)).
   Proof.
     intros step Hs st n. split; [|split].
     - intros k Ha _. now apply on_array_member_other.
-    - apply on_array_member_rel; [apply obj_frame_refl | exact Hs].
+    - apply on_array_member_rel; [apply action_frame_refl | exact Hs].
     - unfold member_frame. rewrite on_array_member_other by key_neq.
-      destruct (olookup k_router n) as [x|]; [|exact I]. apply lifted_refl, obj_frame_refl.
+      destruct (olookup k_router n) as [x|]; [|exact I]. apply lifted_refl, router_frame_refl.
   Qed.
 
   Lemma actions_router_node_frame : forall (fa fr : mstate -> obj -> mstate * obj),
-    (forall st a, obj_frame action_footprint action_heads a (snd (fa st a))) ->
-    (forall st r, obj_frame router_footprint router_heads r (snd (fr st r))) ->
+    (forall st a, action_frame a (snd (fa st a))) ->
+    (forall st r, router_frame r (snd (fr st r))) ->
     forall st n, node_frame n (snd (let '(st1, n1) := on_array_member k_actions fa st n in on_object_member k_router fr st1 n1)).
   Proof.
     intros fa fr Ha Hr st n.
@@ -359,30 +439,39 @@ Section Frame.
     eapply node_frame_trans; [exact H1|]. split; [|split].
     - intros k _ Hk. now apply on_object_member_other.
     - unfold member_frame. rewrite on_object_member_other by key_neq.
-      destruct (olookup k_actions n1) as [x|]; [|exact I]. apply arr_frame_refl, lifted_refl, obj_frame_refl.
-    - apply on_object_member_rel; [apply obj_frame_refl | exact Hr].
+      destruct (olookup k_actions n1) as [x|]; [|exact I]. apply arr_frame_refl, lifted_refl, action_frame_refl.
+    - apply on_object_member_rel; [apply router_frame_refl | exact Hr].
   Qed.
 
   Ltac outside := apply same_outside_frame; intros k Hk;
     repeat first [rewrite olookup_oset_other by (intro; subst; apply Hk; cbn; tauto)
                  | rewrite olookup_odel_other by (intro; subst; apply Hk; cbn; tauto)]; reflexivity.
 
-  Lemma step_13_1_frame : forall st a, obj_frame action_footprint action_heads a (snd (step_13_1 st a)).
+  Lemma is_type_eq : forall t a, is_type t a = true -> type_of a = s t.
+  Proof. intros t a H. unfold is_type in H. now apply str_eqb_eq in H. Qed.
+
+  Lemma step_13_1_frame : forall st a, action_frame a (snd (step_13_1 st a)).
   Proof.
-    intros st a. unfold step_13_1. destruct (is_type "send_msg" a); [|apply obj_frame_refl].
-    destruct (get_obj k_templating a); [|apply obj_frame_refl]. destruct (next_uuid (fst st)). cbn [snd]. outside.
+    intros st a. unfold step_13_1. destruct (is_type "send_msg" a) eqn:Et; [|apply action_frame_refl].
+    destruct (get_obj k_templating a); [|apply action_frame_refl]. destruct (next_uuid (fst st)) as [u0 fr0]. cbn [snd].
+    unfold action_frame. rewrite (is_type_eq _ _ Et).
+    change (action_fp (s "send_msg")) with [k_templating; k_template; k_template_variables]. outside.
   Qed.
 
-  Lemma step_13_4_frame : forall st a, obj_frame action_footprint action_heads a (snd (step_13_4 st a)).
+  Lemma step_13_4_frame : forall st a, action_frame a (snd (step_13_4 st a)).
   Proof.
-    intros st a. unfold step_13_4. destruct (is_type "send_msg" a); [|apply obj_frame_refl].
-    destruct (get_obj k_templating a); [|apply obj_frame_refl]. destruct (next_uuid (fst st)). cbn [snd]. outside.
+    intros st a. unfold step_13_4. destruct (is_type "send_msg" a) eqn:Et; [|apply action_frame_refl].
+    destruct (get_obj k_templating a); [|apply action_frame_refl]. destruct (next_uuid (fst st)) as [u0 fr0]. cbn [snd].
+    unfold action_frame. rewrite (is_type_eq _ _ Et).
+    change (action_fp (s "send_msg")) with [k_templating; k_template; k_template_variables]. outside.
   Qed.
 
-  Lemma step_13_5_frame : forall st a, obj_frame action_footprint action_heads a (snd (step_13_5 st a)).
+  Lemma step_13_5_frame : forall st a, action_frame a (snd (step_13_5 st a)).
   Proof.
-    intros st a. unfold step_13_5. destruct (is_type "send_msg" a); [|apply obj_frame_refl].
-    destruct (get_obj k_templating a); [|apply obj_frame_refl]. cbn [snd]. outside.
+    intros st a. unfold step_13_5. destruct (is_type "send_msg" a) eqn:Et; [|apply action_frame_refl].
+    destruct (get_obj k_templating a); [|apply action_frame_refl]. cbn [snd].
+    unfold action_frame. rewrite (is_type_eq _ _ Et).
+    change (action_fp (s "send_msg")) with [k_templating; k_template; k_template_variables]. outside.
   Qed.
 
   Lemma limit_member_outside : forall fp hd k max o, In k fp -> obj_frame fp hd o (limit_member k max o).
@@ -392,23 +481,25 @@ Section Frame.
     apply olookup_oset_other. intro; subst; contradiction.
   Qed.
 
-  Lemma action_13_6_frame : forall st a, obj_frame action_footprint action_heads a (snd (action_13_6 st a)).
+  Lemma action_13_6_frame : forall st a, action_frame a (snd (action_13_6 st a)).
   Proof.
-    intros st a. unfold action_13_6. destruct (is_type "set_run_result" a); cbn [snd]; [|apply obj_frame_refl].
+    intros st a. unfold action_13_6. destruct (is_type "set_run_result" a) eqn:Et; cbn [snd]; [|apply action_frame_refl].
+    unfold action_frame. rewrite (is_type_eq _ _ Et).
+    change (action_fp (s "set_run_result")) with [k_name; k_category].
     eapply obj_frame_trans; apply limit_member_outside; cbn; tauto.
   Qed.
 
-  Lemma router_13_6_frame : forall st r, obj_frame router_footprint router_heads r (snd (router_13_6 st r)).
+  Lemma router_13_6_frame : forall st r, router_frame r (snd (router_13_6 st r)).
   Proof.
-    intros st r. unfold router_13_6.
-    eapply obj_frame_trans; [apply (limit_member_outside router_footprint router_heads k_result_name); cbn; tauto|].
+    intros st r. unfold router_13_6, router_frame.
+    eapply obj_frame_trans; [apply (limit_member_outside router_footprint _ k_result_name); cbn; tauto|].
     apply same_outside_frame. intros k Hk. apply on_array_member_other. intro; subst; apply Hk; cbn; tauto.
   Qed.
 
   Lemma rewrite_templates_frame : forall fp tab t loc o p,
     In p (catalog_paths tab t) ->
     match steps_of p with Some (sel :: _) => str_eqb sel star = false | _ => True end ->
-    obj_frame fp (heads tab) o (snd (rewrite_templates tx loc o p)).
+    obj_frame fp (row_heads tab t) o (snd (rewrite_templates tx loc o p)).
   Proof.
     intros fp tab t loc o p Hp Hstar. unfold rewrite_templates. fold (steps_of p).
     destruct (steps_of p) as [steps|] eqn:Es; [|apply obj_frame_refl].
@@ -419,17 +510,17 @@ Section Frame.
     - intros k _ Hh. destruct steps as [|sel rem]; [cbn in Ev; now inversion Ev|].
       apply (visit_obj_other tx sel rem loc o k Hstar); [|now rewrite Ev].
       destruct (str_eqb k sel) eqn:E; [|reflexivity]. apply str_eqb_eq in E. subst k.
-      exfalso. apply Hh. eapply catalog_paths_head; eassumption.
+      exfalso. apply Hh. unfold row_heads. apply in_flat_map. exists p. split; [exact Hp|]. rewrite Es. now left.
   Qed.
 
   Lemma rewrite_all_frame : forall fp tab st o,
     (forall p, In p (catalog_paths tab (type_of o)) ->
                match steps_of p with Some (sel :: _) => str_eqb sel star = false | _ => True end) ->
-    obj_frame fp (heads tab) o (snd (rewrite_all tx tab st o)).
+    obj_frame fp (row_heads tab (type_of o)) o (snd (rewrite_all tx tab st o)).
   Proof.
     intros fp tab st o Hstar. unfold rewrite_all.
     assert (H : forall ps acc, (forall p, In p ps -> In p (catalog_paths tab (type_of o))) ->
-                 obj_frame fp (heads tab) (snd acc)
+                 obj_frame fp (row_heads tab (type_of o)) (snd acc)
                  (snd (fold_left (fun (acc : option obj * obj) p => rewrite_path tx (fst acc) (snd acc) p) ps acc))).
     { induction ps as [|p ps IH]; intros acc Hin; [apply obj_frame_refl|]. cbn [fold_left].
       eapply obj_frame_trans; [|apply IH; intros q Hq; apply Hin; now right].
@@ -472,7 +563,7 @@ Section Frame.
         (destruct (olookup k_nodes f); [apply arr_frame_refl, lifted_refl, node_frame_refl | exact I]). }
     destruct (String.eqb name "Migrate13_3").
     { intro H; inversion H; subst. intros. apply nodes_migration_frame. unfold node_13_3.
-      apply actions_router_node_frame; intros; apply rewrite_all_frame;
+      apply actions_router_node_frame; intros; [unfold action_frame | unfold router_frame]; apply rewrite_all_frame;
         [apply catalog_no_star_actions | apply catalog_no_star_routers]. }
     destruct (String.eqb name "Migrate13_4"); [intro H; inversion H; subst; intros; apply nodes_migration_frame, actions_only_node_frame, step_13_4_frame|].
     destruct (String.eqb name "Migrate13_5"); [intro H; inversion H; subst; intros; apply nodes_migration_frame, actions_only_node_frame, step_13_5_frame|].
@@ -587,3 +678,22 @@ Section Parametric13_3.
     destruct loc' as [l|]; [rewrite olookup_oset_other by congruence|]; now apply txr_lookup.
   Qed.
 End Parametric13_3.
+
+(* the per-type frame of one action, spelled out *)
+Lemma action_frame_says : forall tx a a',
+  action_frame tx a a' ->
+  type_of a' = type_of a
+  /\ (forall k, ~ In k (action_fp (type_of a)) -> ~ In k (row_heads catalog_actions (type_of a)) -> olookup k a' = olookup k a)
+  /\ (forall k, ~ In k (action_fp (type_of a)) -> orel tx (olookup k a) (olookup k a')).
+Proof.
+  intros tx a a' H. split; [now apply (action_frame_type tx)|]. destruct H as [H1 H2]. split; assumption.
+Qed.
+
+(* what the tables say for some types of the generated catalogue (closed computations) *)
+Example frame_examples :
+  action_fp (s "set_contact_name") = [] /\ mem_str k_name (row_heads catalog_actions (s "set_contact_name")) = true
+  /\ action_fp (s "call_webhook") = [] /\ mem_str k_result_name (row_heads catalog_actions (s "call_webhook")) = false
+  /\ mem_str k_name (row_heads catalog_actions (s "send_msg")) = false
+  /\ action_fp (s "set_run_result") = [k_name; k_category]
+  /\ action_fp (s "send_msg") = [k_templating; k_template; k_template_variables].
+Proof. vm_compute. repeat split. Qed.
